@@ -345,6 +345,12 @@ def converter(ctx):
         tail = names[fills[0] + 1:] if fills else names
         si = [o for o in ops if o[0] == 'meth' and o[1] == 'set_index']
         ok = bool(si) and si[-1][2][:1] == (('str', 'Date'),) and 'sort_index' in tail and tail.index('sort_index') > tail.index('set_index')
+        if not ok and fills and si:
+            # indexed and sorted BEFORE the fill, and nothing after the fill re-arranges the rows: the same frame, filled in time order
+            head = names[:fills[0]]
+            ok = si[-1][2][:1] == (('str', 'Date'),) and 'set_index' in head and 'sort_index' in head and \
+                max(i_ for i_, n_ in enumerate(head) if n_ == 'sort_index') > max(i_ for i_, n_ in enumerate(head) if n_ == 'set_index') and \
+                not any(n_ in ('concat', 'stack', 'unstack', 'sort_values', 'reindex', 'append', 'melt', 'sample', 'T', 'transpose', 'reset_index', 'iloc', 'loc') for n_ in tail)
         if pipeline_known or si:
             ctx.require(ok, 'C06.S3', 'the frame is indexed by the timestamp column and sorted by it [%s]' % tag, fn.site(), tail, key='C06.S3|index-sorted')
         # S4: Open rows +14:30, Close rows +21:00
@@ -501,7 +507,16 @@ def handler(ctx):
         got = False
         from ..lib import memo_tables
         memos = memo_tables(ctx, fn, ps)
-        for m_, vd in memos.items():
+        for m_, vd in list(memos.items()):
+            from ..lib import _stored_without
+            if vd[0] == 'unsound' and fn.cls is not None and _stored_without(fn, m_, vd[2]):
+                # the entries are filed by a helper that is not handed the timestamp: what is stored (whole arrays) cannot vary with it
+                ctx.undecided('C06.S6', '%s answers from its memo %s only what it would ask the data sources afresh' % (qn, m_), fn.site(),
+                              'entries of %s are filed by a helper that does not receive %s: the stored value cannot depend on it; the look-up made in the stored arrays is not read here'
+                              % (m_, ', '.join(str(x_) for x_ in vd[2])))
+                memos = dict(memos)
+                memos[m_] = ('other', 'filed without the question')
+                continue
             if vd[0] == 'unsound':
                 ctx.violation('C06.S6', '%s answers from its memo %s only what it would ask the data sources afresh' % (qn, m_), fn.site(),
                               'the memo is keyed by %s but the stored value also depends on %s%s: a later query with another %s is answered with the remembered price'
